@@ -100,6 +100,22 @@ def gen_cells(ck):
 
 def _worker(args):
     """run one cell against the real code (in a worker process); returns a JSON-able record"""
+    from threadpoolctl import threadpool_limits
+
+    with threadpool_limits(limits=1):  # OpenMP/BLAS pools make tiny fits 100x slower when oversubscribed
+        return _worker1(args)
+
+
+def _worker1(args):
+    import time
+
+    t0 = time.time()
+    rec = _worker2(args)
+    rec["secs"] = round(time.time() - t0, 2)
+    return rec
+
+
+def _worker2(args):
     cell, spec, script, mode = args
     ac.quiet()
     if mode == "search":
@@ -481,6 +497,9 @@ def run(ck):
     n_corpus = len(cells)
     cells += gen_cells(ck)
     recs = _run_cells(ck, cells)
+    if os.environ.get("VERIF_TIMING"):
+        for secs, c in sorted(((r.get("secs", 0), c[0]) for r, c in zip(recs, cells)), key=lambda p: -p[0])[:12]:
+            print("timing", secs, c)
     with ck.driver() as d:
         prov = _process(ck, d, cells, recs, None)
         _fin_cases(ck, d)
